@@ -732,3 +732,64 @@ Proof.
     destruct b; [exfalso; apply Hn; reflexivity|]. cbn in H. destruct H as [-> ->]. auto.
   - destruct (ev_resp e0); cbn in H; destruct H as [-> ->]; auto.
 Qed.
+
+(* ================================================================ C20: no crash *)
+Lemma np_start_timing_at n t : nopanic (start_timing_at n t).
+Proof. unfold start_timing_at, start_timing_now, now_, dcs_set_. pnp. Qed.
+Lemma np_approve cfg cs msd active m master : nopanic (approve_failover cfg cs msd active m master).
+Proof. unfold approve_failover, approve_pre, approve_tail, now_. pnp. Qed.
+Lemma np_issue master : nopanic (issue_failover master).
+Proof. unfold issue_failover, now_. pnp. Qed.
+Lemma np_failure_detection cfg cs msd active m master light : nopanic (failure_detection cfg cs msd active m master light).
+Proof.
+  unfold failure_detection. destruct (negb (ns_ping_ok msd) || ns_fs_ro msd).
+  - apply nopanic_bind.
+    + destruct (failed_at m master =? 0); [|exact I]. unfold now_. cbn [bind nopanic]. intros r.
+      apply nopanic_bind; [apply np_start_timing_at|]. intros _. apply nopanic_bind; [apply np_start_timing_at|]. intros; exact I.
+    + intros m1. destruct light; [exact I|]. apply nopanic_bind; [apply np_approve|]. intros ap.
+      apply nopanic_bind; [destruct ap; [apply nopanic_bind; [apply np_issue|intros; exact I]|exact I]|]. intros; exact I.
+  - destruct (negb (failed_at m master =? 0)); [|exact I].
+    apply nopanic_bind; [apply np_stop_timing|]. intros _. apply nopanic_bind; [apply np_stop_timing|]. intros; exact I.
+Qed.
+
+(* with the recorded master present in both views (what the repaired stateManager guarantees before it gets
+   here) failure detection and the suspicious-master guard cannot crash *)
+Theorem after_requests_nopanic cfg cs csd active m master light msd ms :
+  assoc master csd = Some msd -> assoc master cs = Some ms -> nopanic (after_requests cfg cs csd active m master light).
+Proof.
+  intros Hd Hs. unfold after_requests. rewrite Hd. apply nopanic_bind; [apply np_failure_detection|].
+  intros [b mm]. cbn [fst snd]. destruct b; [exact I|]. rewrite Hs. destruct (negb (ns_ping_ok ms)); exact I.
+Qed.
+
+Lemma np_update_hosts m : nopanic (update_hosts_info m).
+Proof.
+  unfold update_hosts_info, children_or_empty. cbn [bind nopanic]. intros r.
+  assert (CC : forall l, nopanic (cascade_configs l)).
+  { induction l as [|h t IH]; [exact I|]. cbn [cascade_configs nopanic]. intros x. destruct x; try exact I. destruct v; try exact I. exact IH. }
+  destruct r as [er| | | | | | | | | | | |l| |]; cbn [bind]; try exact I.
+  - destruct er; cbn [bind]; try exact I. cbn [nopanic]. intros r2.
+    destruct r2 as [er2| | | | | | | | | | | |l2| |]; cbn [bind]; try exact I.
+    + destruct er2; cbn [bind]; try exact I.
+    + apply nopanic_bind; [apply CC|]. intros [|]; exact I.
+  - cbn [nopanic]. intros r2.
+    destruct r2 as [er2| | | | | | | | | | | |l2| |]; cbn [bind]; try exact I.
+    + destruct er2; cbn [bind]; try exact I.
+    + apply nopanic_bind; [apply CC|]. intros [|]; exact I.
+Qed.
+
+Theorem state_candidate_nopanic m : nopanic (state_candidate m).
+Proof.
+  unfold state_candidate, lock_acquire. cbn [bind nopanic]. intros r. destruct (negb _); [exact I|].
+  apply nopanic_bind; [apply np_update_hosts|]. intros u. destruct (negb (fst u)); [exact I|]. pnp.
+Qed.
+
+(* what still crashes (known findings C20-P1, C20-P2): re-pointing a server at itself ... *)
+Theorem change_master_to_itself_panics cfg h : runs (perform_change_master cfg h h) [] (Panicked 2079).
+Proof. unfold perform_change_master. rewrite N.eqb_refl. cbn. auto. Qed.
+(* ... and a switchover whose candidate list names a host the process has no handle for *)
+Theorem disable_all_with_unknown_host_panics master nodes :
+  exists tr, runs (opt_disable_all_k false master nodes) tr (Panicked 50114).
+Proof.
+  exists [ {| ev_site := 50153; ev_call := DcsChildren POptNodes; ev_resp := RHosts [] |} ].
+  unfold opt_disable_all_k, dcs_children_. cbn. auto.
+Qed.
